@@ -161,8 +161,14 @@ def c_composed(design, busw, ordering, paging, handler="soc", shared=False, rese
         struct("struct.address-map:pages==SoCCSRHandler.locs(published-map)", all(locs.get(k) == p for k, p in pages) and all(0 <= p < d.hnd.n_locs for _, p in pages)
                and all(locs.get(k) == v for k, v in (reserved or {}).items()), locs=dict(locs))
     struct("struct.every-bank-fits-its-page", all(len(rmap.simple_csrs) <= ap for _, _, rmap in banks.values()))
+    FUNCS = ["litex.soc.interconnect.csr_bus.CSRBankArray.__init__/scan/get_rmaps/get_mmaps/get_buses", "litex.soc.interconnect.csr.AutoCSR.get_csrs/get_memories (concrete trees)",
+             "litex.soc.interconnect.csr._make_gatherer.gatherer (concrete trees)", "litex.soc.interconnect.csr.csrprefix/memprefix (concrete trees)", "litex.soc.interconnect.csr._sort_gathered_items (concrete lists)",
+             "litex.soc.interconnect.csr_bus.InterconnectShared.__init__" if shared else "litex.soc.interconnect.csr_bus.Interconnect.__init__", "litex.soc.interconnect.csr_bus.CSRBank.__init__", "litex.soc.interconnect.csr_bus.SRAM.__init__/get_csrs"] + \
+            (["litex.soc.integration.soc.SoCCSRHandler.__init__/address_map", "litex.soc.integration.soc.SoCLocHandler.add/alloc"] if handler == "soc" else [])
     if not ok_all:
-        raise RuntimeError("structure of the collected banks differs from the specification: " + "; ".join(f"{r['name']}: {dict((k, v) for k, v in r.items() if k not in ('name','kind','status','secs','backend'))}" for r in pre if r["status"] != PROVED))
+        # the collected structure differs from the specification: that IS the violation (the bus-level clauses cannot even be stated for a different register set)
+        pre.append(res("cover.structure-elaborated", "cover", OK, 0, "elaboration"))
+        return dict(results=pre, functions=FUNCS, assumptions=[], samples=[])
     # ---- E1 ----------------------------------------------------------------------------------------------------------------------------
     ins = [m.adr, m.we, m.re, m.dat_w] + ([d.m2.adr, d.m2.we, d.m2.re, d.m2.dat_w] if shared else [])
     objs = {}          # (bank, slot index) -> real object
@@ -291,10 +297,7 @@ def c_composed(design, busw, ordering, paging, handler="soc", shared=False, rese
             row = [t for t in table if t[2] == n and t[3] == ("page", mn)][0]
             h.ensure(f"ens.storage[{preg.name}].exact-update", h.n(preg.storage) == z3.If(z3.And(we, at(P, row[1])), z3.Extract(len(preg.storage) - 1, 0, dw), V(preg.storage)))
     h.cover("cover.read-nonzero", h.v(m.dat_r) != K(0, busw), depth=3)
-    h.functions = ["litex.soc.interconnect.csr_bus.CSRBankArray.__init__/scan/get_rmaps/get_mmaps/get_buses", "litex.soc.interconnect.csr.AutoCSR.get_csrs/get_memories (concrete trees)",
-                   "litex.soc.interconnect.csr._make_gatherer.gatherer (concrete trees)", "litex.soc.interconnect.csr.csrprefix/memprefix (concrete trees)", "litex.soc.interconnect.csr._sort_gathered_items (concrete lists)",
-                   "litex.soc.interconnect.csr_bus.InterconnectShared.__init__" if shared else "litex.soc.interconnect.csr_bus.Interconnect.__init__", "litex.soc.interconnect.csr_bus.CSRBank.__init__", "litex.soc.interconnect.csr_bus.SRAM.__init__/get_csrs"] + \
-                  (["litex.soc.integration.soc.SoCCSRHandler.__init__/address_map", "litex.soc.integration.soc.SoCLocHandler.add/alloc"] if handler == "soc" else [])
+    h.functions = FUNCS
     h.cosim_cycles = 12
     return h
 
@@ -322,6 +325,7 @@ def design_paged(busw):
 # object itself; the heap holds the mutable name of every object (CSR.name / Memory.name_override) as a z3 array Int -> String.
 # =====================================================================================================================================
 BACKEND = "pysym(loop-cut)+z3-%s(api)" % z3.get_version_string()
+FEAS_MS = 400        # path-feasibility queries only: `unknown` KEEPS the path (sound), so a short limit never decides an obligation
 def zs(x):
     if isinstance(x, SymStr): return x.t
     if isinstance(x, str): return z3.StringVal(x)
@@ -337,6 +341,29 @@ class SymStr:
     def __format__(self, spec): return f"<str {self.t}>"
     __str__ = __repr__ = lambda self: f"<str {self.t}>"
 def _c(): return pysym.CTX
+PORTFOLIO = (dict(mbqi=False, timeout=10000), dict(timeout=20000), dict(mbqi=False, random_seed=11, timeout=30000), dict(random_seed=5, timeout=60000))
+def _robust(ctx):
+    """obligations of this module are quantified: discharge them with a small portfolio of solver configurations (pure E-matching first, then with
+    model-based instantiation, then other seeds) so that a verdict does not depend on one run's instantiation order; `sat` is only accepted with a model"""
+    def check(name, cond):
+        cond = tobool(cond); status, model = "unknown", None
+        for cfg in PORTFOLIO:
+            sv = z3.Solver()
+            for k_, v_ in cfg.items(): sv.set(k_, v_)
+            sv.add(*ctx.pc); sv.add(z3.Not(cond)); r = sv.check()
+            if r == z3.unsat: status = "proved"; break
+            if r == z3.sat: status, model = "FAILED", sv.model(); break
+        ctx.obligations.append((name, status, model))
+    ctx.check = check
+def _is_model(axioms, consts, funs):
+    """the given interpretation (constants -> values, functions -> bodies over Var(i)) satisfies every axiom: each axiom, with the interpretation
+    substituted, is a closed linear-arithmetic formula that is proved valid"""
+    for ax in axioms:
+        e = z3.substitute_funs(ax, *funs) if funs else ax
+        e = z3.substitute(e, *consts) if consts else e
+        sv = z3.Solver(); sv.set("timeout", 60000); sv.add(z3.Not(e)); r = sv.check()
+        if r != z3.unsat: return "unknown" if r == z3.unknown else "no"
+    return "yes"
 class Heap:
     """mutable state reachable only through proxies: name of every object, ghost call counter of every child method"""
     def __init__(self, name, calls=None): self.name = name; self.calls = calls
@@ -383,6 +410,7 @@ class HVC(VC):
     def len(self, x):
         if isinstance(x, Seq): return SymInt(x.n)
         if isinstance(x, RList): return SymInt(x.len)
+        if builtins.hasattr(x, "symlen"): return SymInt(x.symlen)
         return VC.len(self, x)
     def newlist(self): return RList(z3.K(I_, z3.IntVal(-1)), z3.IntVal(0))
     def listcomp(self, f, it): return [f(x) for x in it]
@@ -396,6 +424,7 @@ class HVC(VC):
         for obj, comps in sp["state"](L):
             for comp in comps: setattr(obj, comp, c.fresh(f"{type(obj).__name__}.{comp}", self._sort(obj, comp)))
         hv = {pos: SymInt(c.fresh(pos))}
+        for n_, kind in sp.get("havoc", {}).items(): hv[n_] = kind(c) if builtins.callable(kind) else SymInt(c.fresh(n_))     # locals assigned in the loop body
         L2 = dict(L); L2.update(hv)
         c.assume(z3.And(hv[pos].t >= 0, hv[pos].t <= toint(self.len(iterable))))
         c.assume(sp["inv"](L2))
@@ -427,6 +456,7 @@ def _run_prefix(fn, wrong=None):
     stats = dict(done=0)
     x, q = z3.Ints("x q")
     def run(ctx):
+        ctx.solver.set("timeout", FEAS_MS); _robust(ctx)
         n = z3.Int("n"); ctx.assume(n >= 0)
         EL = z3.Function("csrs.el", I_, I_); MEM = z3.Function("member", I_, z3.BoolSort()); FIRST = z3.Function("first_index", I_, I_)
         # definition of membership / first occurrence for the fixed argument list (conservative: every finite sequence has them)
@@ -499,7 +529,7 @@ def _run_gather(method, prefix_name, sort, has_exclude, first_call, wrong=None):
     stats = dict(returned=0)
     x, y, a, j, p, q = z3.Ints("x y a j p q")
     def run(ctx):
-        ctx.solver.set("timeout", 2000)
+        ctx.solver.set("timeout", FEAS_MS); _robust(ctx)
         w = World(); N = z3.Int("N"); ctx.assume(N >= 0)
         w.KEY = z3.Function("attr.name", I_, z3.StringSort()); w.KIND = z3.Function("attr.kind", I_, I_); w.EXCL = z3.Function("attr.excluded", I_, z3.BoolSort())
         w.OBJ = z3.Function("attr.object", I_, I_); w.CLEN = z3.Function("child.len", I_, I_); w.CEL = z3.Function("child.el", I_, I_, I_)
@@ -519,11 +549,23 @@ def _run_gather(method, prefix_name, sort, has_exclude, first_call, wrong=None):
         ctx.assume(OFF(z3.IntVal(0)) == 0); ctx.assume(z3.ForAll([a], z3.Implies(a >= 0, OFF(a + 1) == OFF(a) + contrib(a))))
         NAME0 = z3.Array("name0", I_, z3.StringSort()); D0 = z3.Array("prefixed0", I_, z3.BoolSort()) if not first_call else z3.K(I_, z3.BoolVal(False))
         heap = Heap(NAME0, z3.K(I_, z3.IntVal(0))); w.heap = heap
+        if "world" not in stats:
+            # vacuity guard: ONE concrete tree (own register 10; child `1` with registers 20, 21; (excluded) child `2` with register 30) satisfies every environment
+            # assumption and ghost definition made above (checked by the solver in c_gatherer): the assumption set is consistent
+            ite = z3.If; v0, v1 = z3.Var(0, I_), z3.Var(1, I_)
+            stats["world"] = ([(N, z3.IntVal(3))],
+                              [(w.KIND, ite(v0 == 0, z3.IntVal(ITEM), ite(z3.Or(v0 == 1, v0 == 2), z3.IntVal(CHILD), z3.IntVal(0)))), (w.EXCL, (v0 == 2) if has_exclude else z3.BoolVal(False)),
+                               (w.OBJ, z3.IntVal(10)), (w.CLEN, ite(v0 == 1, z3.IntVal(2), ite(v0 == 2, z3.IntVal(1), z3.IntVal(0)))), (w.CEL, ite(v0 == 1, 20 + v1, 30 + v1)),
+                               (w.OA, ite(v0 == 10, z3.IntVal(0), ite(z3.Or(v0 == 20, v0 == 21), z3.IntVal(1), ite(v0 == 30, z3.IntVal(2), z3.IntVal(-1))))),
+                               (w.OJ, ite(v0 == 10, z3.IntVal(-1), ite(v0 == 20, z3.IntVal(0), ite(v0 == 21, z3.IntVal(1), ite(v0 == 30, z3.IntVal(0), z3.IntVal(-5)))))),
+                               (OFF, ite(v0 <= 0, z3.IntVal(0), ite(v0 == 1, z3.IntVal(1), z3.IntVal(3) if has_exclude else ite(v0 == 2, z3.IntVal(3), z3.IntVal(4)))))])
+            stats["axioms"] = list(ctx.pc)
         class PSelf: pass
         slf = PSelf()
         if has_exclude: slf.autocsr_exclude = ExclProxy(w)
         if not first_call: setattr(slf, "__prefixed", SetProxy(D0))
         class AttrSeq:
+            symlen = N
             def __getitem__(s, i): it = toint(i); ctx.assume(z3.And(it >= 0, it < N)); return (Key(w, it), Val(w, it))
         attrs = AttrSeq()
         pos_of = lambda o: OFF(w.OA(o)) + z3.If(w.OJ(o) == -1, 0, w.OJ(o))
@@ -588,25 +630,37 @@ def _run_gather(method, prefix_name, sort, has_exclude, first_call, wrong=None):
             ctx.assume(T.len >= items.len)
             ctx.assume(z3.ForAll([p], z3.Implies(z3.And(0 <= p, p < items.len), z3.And(0 <= z3.Select(PO, p), z3.Select(PO, p) < T.len, T.sel(z3.Select(PO, p)) == items.sel(p)))))
             ctx.assume(z3.ForAll([q], z3.Implies(z3.And(0 <= q, q < T.len), z3.Or(T.sel(q) == -2 - q, z3.And(0 <= z3.Select(SRC, q), z3.Select(SRC, q) < items.len, T.sel(q) == items.sel(z3.Select(SRC, q)), z3.Select(PO, z3.Select(SRC, q)) == q)))))
-            ghost["PO"] = PO
+            ghost["PO"] = PO; ghost["items_to_place"] = items
             return T
         gat.__globals__.update(sorted=m_sorted, isinstance=m_isinstance, hasattr=m_hasattr, getattr=m_getattr, callable=lambda f: True if getattr(f, "__name__", "") == "wrapped" else builtins.callable(f),
                                xdir=m_xdir, set=lambda: SetProxy(z3.K(I_, z3.BoolVal(False))), _sort_gathered_items=m_sort_gathered)
         out = gat(slf, sort=sort) if sort else gat(slf)
         stats["returned"] += 1
         Dn = getattr(slf, "__prefixed").D
+        if "S" not in ghost:
+            # builtin sorted() was never applied to the gathered list: the ordering clause is false as stated; the other clauses are evaluated on the list as returned
+            ctx.check("post.gathered-list-is-passed-through-sorted(key=duid)", z3.BoolVal(False))
+            base_ = ghost.get("items_to_place", out if isinstance(out, RList) else None)
+            if base_ is None: return
+            pid = z3.Int("p!id"); ghost["S"] = base_; ghost["unsorted"] = base_; ghost["pinv"] = z3.Lambda([pid], pid)
         S = ghost["S"]; U = ghost["unsorted"]; pinv = ghost["pinv"]
         want = lambda o: z3.And(z3.Or(OWN(o), w.INCH(o)), inc(o))                    # o is a register of self or of a non-excluded child
         RS = lambda o: z3.Select(pinv, pos_of(o))                                     # its index in the sorted list
         ctx.check("post.result-is-the-sorted-list" if not sort else "post.result-is-the-placed-list", z3.BoolVal(isinstance(out, RList) and (sort or out is S)))
         ctx.check("post.length==number-of-registers-of-the-non-excluded-attributes", z3.And(S.len == OFF(N), U.len == OFF(N)))
+        def lemma(name, f):
+            """proved first, then available to the later obligations (a failed lemma is reported like any other obligation)"""
+            ctx.check(name, f); ctx.pc.append(tobool(f))
+        lemma("lemma.sorted-list-holds-the-unsorted-entries(permutation)", z3.ForAll([p], z3.Implies(z3.And(0 <= p, p < U.len), z3.And(0 <= z3.Select(pinv, p), z3.Select(pinv, p) < S.len, S.sel(z3.Select(pinv, p)) == U.sel(p)))))
+        lemma("lemma.child-entries-inside-the-list", z3.ForAll([a, j], z3.Implies(z3.And(0 <= a, a < N, z3.Not(w.EXCL(a)), w.KIND(a) == CHILD, 0 <= j, j < w.CLEN(a)),
+              z3.And(0 <= OFF(a) + j, OFF(a) + j < U.len, U.sel(OFF(a) + j) == w.CEL(a, j), pos_of(w.CEL(a, j)) == OFF(a) + j))))
         ctx.check("post.every-own-register-occurs", z3.ForAll([a], z3.Implies(z3.And(0 <= a, a < N, z3.Not(w.EXCL(a)), w.KIND(a) == ITEM), z3.And(0 <= RS(w.OBJ(a)), RS(w.OBJ(a)) < S.len, S.sel(RS(w.OBJ(a))) == w.OBJ(a)))))
         ctx.check("post.every-register-of-every-non-excluded-child-occurs", z3.ForAll([a, j], z3.Implies(z3.And(0 <= a, a < N, z3.Not(w.EXCL(a)), w.KIND(a) == CHILD, 0 <= j, j < w.CLEN(a)),
                   z3.And(0 <= RS(w.CEL(a, j)), RS(w.CEL(a, j)) < S.len, S.sel(RS(w.CEL(a, j))) == w.CEL(a, j)))))
         ctx.check("post.nothing-else-occurs(excluded-attributes-absent)", z3.ForAll([p], z3.Implies(z3.And(0 <= p, p < S.len), want(S.sel(p)))))
-        ctx.check("post.exactly-once(no-two-positions-hold-the-same-object)", z3.ForAll([p, q], z3.Implies(z3.And(0 <= p, p < q, q < S.len), S.sel(p) != S.sel(q))))
+        lemma("post.exactly-once(no-two-positions-hold-the-same-object)", z3.ForAll([p, q], z3.Implies(z3.And(0 <= p, p < q, q < S.len), S.sel(p) != S.sel(q))))
         ctx.check("post.ascending-duid(creation-order)", z3.ForAll([p, q], z3.Implies(z3.And(0 <= p, p < q, q < S.len), S.sel(p) < S.sel(q))))
-        ctx.check("post.before-sorting:own-registers-then-children-in-attribute-order", z3.ForAll([p], z3.Implies(z3.And(0 <= p, p < U.len), pos_of(U.sel(p)) == p)))
+        ctx.check("post.before-sorting:entries-in-attribute-order(each-attribute's-registers-contiguous)", z3.ForAll([p], z3.Implies(z3.And(0 <= p, p < U.len), pos_of(U.sel(p)) == p)))
         chl = lambda o: z3.And(w.INCH(o), inc(o))
         ctx.check("post.prefix-exactly-once-per-level:child-register-not-yet-prefixed-here=>name=attr_+name-left-by-child", z3.ForAll([x], z3.Implies(z3.And(chl(x), z3.Not(z3.Select(D0, x))),
                   z3.Select(heap.name, x) == z3.Concat(w.KEY(w.OA(x)), z3.StringVal("_"), w.CNAME(x)))))
@@ -632,14 +686,386 @@ def c_gatherer(method, prefix_name, sort, has_exclude, first_call):
     t0 = time.time()
     paths, obl, stats = _run_gather(method, prefix_name, sort, has_exclude, first_call)
     out, by = _collect("gatherer", paths, obl, t0)
-    refuted = []
-    for wv in (["excluded"] if has_exclude else []) + (["always"] if not first_call else []) + ["own"]:
-        _, o2, _ = _run_gather(method, prefix_name, sort, has_exclude, first_call, wrong=wv)
-        refuted.append(any(n_.startswith("wrong.") and s_ == "FAILED" for n_, s_, _ in o2))
-    ok = stats["returned"] > 0 and {"gatherer.loop0.init", "gatherer.loop0.step"} <= set(by) and all(refuted)
-    out.append(res("gatherer.cover.returns;loop-obligations-generated;wrong-postconditions-refuted", "cover", OK if ok else VACUOUS, time.time() - t0, "pysym", paths=paths, refuted=refuted, **stats))
+    consts, funs = stats.pop("world"); consistent = _is_model(stats.pop("axioms"), consts, funs)
+    nsteps = len(by.get("gatherer.loop0.step", []))          # one per kind of attribute: excluded / register / child with the method / anything else
+    ok = stats["returned"] > 0 and "gatherer.loop0.init" in by and nsteps >= (4 if has_exclude else 3) and consistent == "yes"
+    out.append(res("gatherer.cover.returns;one-loop-step-per-attribute-kind;assumptions-satisfied-by-a-concrete-tree", "cover", OK if ok else (UNKNOWN if consistent == "unknown" else VACUOUS), time.time() - t0, "pysym+z3",
+                   paths=paths, loop_steps=nsteps, assumptions=str(consistent), **stats))
     return dict(results=out, functions=["litex.soc.interconnect.csr._make_gatherer", f"litex.soc.interconnect.csr.AutoCSR.{method}"],
                 samples=[dict(function=f"AutoCSR.{method}", paths=paths, state="object with an unbounded attribute sequence; children with unbounded result lists replaced by the contract; names as z3 strings")])
+
+# ---- native cross-check of the induction argument (bounded): real AutoCSR trees, whole-path names, call orders -------------------------------------
+def c_gather_native(ntrees=150, seed=1):
+    import random
+    t0 = time.time(); rnd = random.Random(seed); bad = []; kinds = set(); checked = 0
+    def mktree(depth, reg, path):
+        n = rnd.randint(0, 4); entries = []; excl = set()
+        for i in range(n):
+            nm = rnd.choice(["a", "b", "c", "r", "x_y", "m"]) + str(i); k = rnd.random()
+            if depth < 3 and k < 0.35: entries.append(("child", nm, *mktree(depth + 1, reg, path + (nm,))))
+            elif k < 0.55: entries.append(("status", nm, rnd.randint(1, 40)))
+            elif k < 0.65: entries.append(("csr", nm, rnd.randint(1, 8)))
+            else: entries.append(("storage", nm, rnd.randint(1, 70)))
+            if rnd.random() < 0.2: excl.add(nm)
+        return entries, tuple(sorted(excl))
+    for t in range(ntrees):
+        entries, excl = mktree(0, {}, ()); reg = {}
+        top = _mkmod(entries, excl, reg, ())
+        top.plain_attribute = 5; top.some_list = [1, 2]                     # attributes that are neither registers nor gatherers
+        want = spec_gather(entries, set(excl))
+        order = rnd.choice(["top", "child-first"])
+        if order == "child-first":                                          # a child is asked directly before the parent: each level still prefixes exactly once
+            for e in entries:
+                if e[0] == "child" and e[1] not in excl: getattr(top, e[1]).get_csrs(); break
+        got1 = top.get_csrs(); names1 = [c.name for c in got1]
+        got2 = top.get_csrs(); names2 = [c.name for c in got2]
+        checked += 1
+        for e in entries:
+            kinds.add("excluded" if e[1] in excl else e[0])
+        ok = [c for c in got1] == [reg[pth] for _, pth, _ in want] and names1 == [nm for nm, _, _ in want] and all(x is y for x, y in zip(got1, got2)) and len(got1) == len(got2) and names2 == names1 \
+             and [c.duid for c in got1] == sorted(c.duid for c in got1)
+        if not ok: bad.append(dict(tree=str(entries)[:300], excluded=excl, got=names1, second=names2, want=[nm for nm, _, _ in want]))
+    cov = {"child", "storage", "status", "csr", "excluded"} <= kinds
+    return dict(results=[res("native.trees:whole-path-prefix-once-per-level,every-register-once,creation-order,second-call-identical", "bounded", BOUNDED_OK if not bad else VIOLATED, time.time() - t0,
+                             "real AutoCSR.get_csrs on random trees (plain CPython)", evaluations=checked, info=str(bad[:2]) if bad else ""),
+                         res("cover.native-trees-exercise-every-attribute-kind", "cover", OK if cov and checked else VACUOUS, 0, "plain CPython", kinds=sorted(kinds))],
+                functions=["litex.soc.interconnect.csr.AutoCSR.get_csrs (bounded cross-check of the induction over the tree)"], samples=[dict(bounded="AutoCSR.get_csrs", trees=checked)])
+
+# =====================================================================================================================================
+# B'. the address map handed to the exporters: SoCCSRHandler.address_map with symbolic names (E3) + the two findings of the array level
+# =====================================================================================================================================
+class _StrLocs:
+    """dict proxy keyed by z3 strings: present[name], val[name]"""
+    def __init__(self, pres, val): self.pres, self.val = pres, val
+    def get(self, name, default=None):
+        if bool(SymBool(z3.Select(self.pres, zs(name)))): return SymInt(z3.Select(self.val, zs(name)))
+        return default
+    def __getitem__(self, name):
+        if not bool(SymBool(z3.Select(self.pres, zs(name)))): raise KeyError(str(name))
+        return SymInt(z3.Select(self.val, zs(name)))
+def c_address_map():
+    """two objects handed to the real SoCCSRHandler.address_map one after the other, handler state arbitrary (injective, in range).  SoCLocHandler.add is replaced
+    by its contract (proved in C13_alloc.py: SoCLocHandler.add(reuse): either SoCError or name granted, invariant kept, other names untouched)."""
+    t0 = time.time(); stats = dict(done=0, raised=0)
+    k1, k2 = z3.Strings("k1 k2")
+    def run(ctx):
+        ctx.solver.set("timeout", 2000); _robust(ctx)
+        NL = 32
+        pres = z3.Array("present", z3.StringSort(), z3.BoolSort()); val = z3.Array("loc", z3.StringSort(), I_)
+        def inv(P, Vv): return z3.And(z3.ForAll([k1, k2], z3.Implies(z3.And(z3.Select(P, k1), z3.Select(P, k2), k1 != k2), z3.Select(Vv, k1) != z3.Select(Vv, k2))),
+                                      z3.ForAll([k1], z3.Implies(z3.Select(P, k1), z3.And(z3.Select(Vv, k1) >= 0, z3.Select(Vv, k1) < NL))))
+        ctx.assume(inv(pres, val))
+        hnd = SOC.SoCCSRHandler.__new__(SOC.SoCCSRHandler); locs = _StrLocs(pres, val); hnd.locs = locs; hnd.n_locs = NL
+        def add_contract(name, n=None, use_loc_if_exists=False):
+            if n is not None or not use_loc_if_exists: raise PUnsupported("add() called differently from address_map's use")
+            if bool(SymBool(ctx.fresh("add.raises", z3.BoolSort()))): stats["raised"] += 1; raise SOC.SoCError()
+            P2 = ctx.fresh("present", pres.sort()); V2 = ctx.fresh("loc", val.sort()); nm = zs(name)
+            ctx.assume(z3.And(inv(P2, V2), z3.Select(P2, nm), z3.ForAll([k1], z3.Implies(k1 != nm, z3.And(z3.Select(P2, k1) == z3.Select(locs.pres, k1), z3.Select(V2, k1) == z3.Select(locs.val, k1))))))
+            locs.pres, locs.val = P2, V2
+        hnd.add = add_contract
+        class PMem:
+            def __init__(s, nm): s.name_override = SymStr(nm)
+        objs = []
+        for i in (1, 2):
+            ismem = z3.Bool(f"o{i}.is_memory"); objs.append((SymStr(z3.String(f"o{i}.name")), ismem, z3.String(f"o{i}.memory_name")))
+        rs = []
+        try:
+            for nm, ismem, mn in objs:
+                mem = PMem(mn) if bool(SymBool(ismem)) else None
+                rs.append(toint(SOC.SoCCSRHandler.address_map(hnd, nm, mem)))
+        except SOC.SoCError:
+            elab.restore_stderr(); return
+        stats["done"] += 1
+        (n1, m1, mn1), (n2, m2, mn2) = objs
+        key = lambda n_, m_, mn_: z3.If(m_, z3.Concat(n_.t, z3.StringVal("_"), mn_), n_.t)
+        different = z3.Or(m1 != m2, n1.t != n2.t, z3.And(m1, mn1 != mn2))
+        ctx.check("ens.in-range", z3.And(rs[0] >= 0, rs[0] < NL, rs[1] >= 0, rs[1] < NL))
+        ctx.check("ens.published:locs[key]==returned-page", z3.And(z3.Select(locs.val, key(n2, m2, mn2)) == rs[1], z3.Select(locs.pres, key(n1, m1, mn1)), z3.Select(locs.val, key(n1, m1, mn1)) == rs[0]))
+        ctx.check("ens.different-keys=>different-pages", z3.Implies(key(n1, m1, mn1) != key(n2, m2, mn2), rs[0] != rs[1]))
+        ctx.check("ens.two-register-banks-with-different-names=>different-pages", z3.Implies(z3.And(z3.Not(m1), z3.Not(m2), n1.t != n2.t), rs[0] != rs[1]))
+        ctx.check("ens.handler-invariant-kept", inv(locs.pres, locs.val))
+        ctx.check("finding.different-objects=>different-pages(one object is a memory: key = owner + '_' + memory name)", z3.Implies(different, rs[0] != rs[1]))
+    paths, obl = explore(run, max_paths=200)
+    elab.restore_stderr()
+    out, by = _collect("address_map", paths, obl, t0)
+    for r in out:
+        if ".finding." in r["name"]:
+            r["kind"] = "finding-witness"; r["what"] = "SoCCSRHandler.address_map keys a memory by owner name + '_' + memory name: bank 'a_b' and memory 'b' of module 'a' (or memories a/b_c and a_b/c) get the SAME page"
+            rp = replay_addrmap_collision()
+            r["status"] = VIOLATED if rp["reproduced"] else (PROVED if r["status"] == PROVED else r["status"]); r["replay_info"] = rp
+    out.append(res("address_map.cover.both-calls-return", "cover", OK if stats["done"] >= 4 else VACUOUS, time.time() - t0, "pysym", paths=paths, **stats))
+    return dict(results=out, functions=["litex.soc.integration.soc.SoCCSRHandler.address_map"], assumptions=["address_map proof: SoCLocHandler.add(name, use_loc_if_exists=True) replaced by its contract (C13_alloc.py, SoCLocHandler.add(reuse)); names are arbitrary z3 strings"],
+                samples=[dict(function="SoCCSRHandler.address_map", paths=paths, state="arbitrary injective name->location map over z3 strings")])
+
+def replay_addrmap_collision():
+    """native: module `a` owns a memory named `b`, module `a_b` owns a register; real SoCCSRHandler + CSRBankArray + Interconnect on the real simulator:
+    one bus write to the register's published address also changes the memory word"""
+    from litex.gen.sim import run_simulation
+    class ModA(Module, AutoCSR):
+        def __init__(self): self.b = Memory(8, 16, name="b")
+    class ModAB(Module, AutoCSR):
+        def __init__(self): self.reg = CSRStorage(8, name="reg")
+    class Top(Module):
+        def __init__(self):
+            self.submodules.a = ModA(); self.submodules.a_b = ModAB()
+            self.hnd = SOC.SoCCSRHandler(data_width=8, address_width=14, alignment=32, paging=0x800, ordering="big"); elab.restore_stderr()
+            self.bus = csr_bus.Interface(data_width=8, address_width=14)
+            self.submodules.array = csr_bus.CSRBankArray(self, self.hnd.address_map, data_width=8, address_width=14, paging=0x800)
+            self.submodules.ic = csr_bus.Interconnect(self.bus, self.array.get_buses())
+    d = Top(); obs = {}
+    pages = dict(bank=[m for n, c, m, r in d.array.banks], memory=[m for n, mem, m, r in d.array.srams])
+    def gen():
+        yield from d.bus.write((pages["bank"][0] << 9) | 0, 0xA5)
+        yield
+        obs["reg"] = (yield d.a_b.reg.storage); obs["mem0"] = (yield d.a.b[0])
+        yield from d.bus.read((pages["bank"][0] << 9) | 0)
+        yield
+    run_simulation(d, gen())
+    return dict(pages=pages, locs=dict(d.hnd.locs), after_one_write_of_0xA5=obs, reproduced=pages["bank"] == pages["memory"] and obs.get("mem0") == 0xA5 and obs.get("reg") == 0xA5)
+
+def replay_bank_overflow(busw=8, paging=0x400, nregs=9, regbits=256):
+    """native: a peripheral whose registers need more words than one page (9 x 256 bit on an 8-bit bus = 288 words, page = 256 words): accepted silently; the words
+    beyond the page cannot be selected, and the address the SoC publishes for them (page base + 4*index) is word 0.. of the NEXT bank"""
+    from litex.gen.sim import run_simulation
+    class Big(Module, AutoCSR):
+        def __init__(self):
+            for i in range(nregs): setattr(self, f"r{i}", CSRStorage(regbits, name=f"r{i}"))
+    class Small(Module, AutoCSR):
+        def __init__(self): self.v = CSRStorage(8, name="v", reset=0x11)
+    class Top(Module):
+        def __init__(self):
+            self.submodules.big = Big(); self.submodules.small = Small()
+            self.hnd = SOC.SoCCSRHandler(data_width=busw, address_width=14, alignment=32, paging=paging, ordering="big"); elab.restore_stderr()
+            self.bus = csr_bus.Interface(data_width=busw, address_width=14)
+            self.submodules.array = csr_bus.CSRBankArray(self, self.hnd.address_map, data_width=busw, address_width=14, paging=paging)
+            self.submodules.ic = csr_bus.Interconnect(self.bus, self.array.get_buses())
+    d = Top(); ap = paging // 4; obs = {}
+    banks = {n: (m, r) for n, c, m, r in d.array.banks}
+    nwords = len(banks["big"][1].simple_csrs)
+    # word index `ap` of bank `big` is the most significant byte of r8 (big ordering): published at page_base(big) + 4*ap = bus word address (page<<8) + ap
+    target = (banks["big"][0] * ap) + ap
+    def gen():
+        yield from d.bus.write(target, 0xEE)
+        yield
+        obs["big.r8"] = (yield d.big.r8.storage); obs["small.v"] = (yield d.small.v.storage)
+    run_simulation(d, gen())
+    return dict(pages={n: m for n, (m, r) in banks.items()}, words_in_bank_big=nwords, words_per_page=ap, written_word_address=target, after_write_of_0xEE=obs,
+                reproduced=nwords > ap and banks["small"][0] == banks["big"][0] + 1 and obs["small.v"] == 0xEE and obs["big.r8"] == 0)
+def c_bank_overflow():
+    t0 = time.time(); rp = replay_bank_overflow()
+    return dict(results=[res("finding.every-register-word-of-a-bank-is-selectable(bank larger than one page: more than paging/4 words)", "finding-witness", VIOLATED if rp["reproduced"] else PROVED, time.time() - t0, "real CSRBankArray + litex.gen.sim",
+                             what="CSRBank / CSRBankArray / SoC accept a bank with more words than one page; the excess words are unreachable and their published addresses alias the next bank", replay_info=rp),
+                         res("cover.bank-overflow-design-elaborates", "cover", OK, 0, "elaboration")],
+                functions=["litex.soc.interconnect.csr_bus.CSRBank.__init__ (page capacity)"], samples=[])
+
+# =====================================================================================================================================
+# C. fields
+# =====================================================================================================================================
+def _run_overlap(wrong=None):
+    """CSRFieldAggregate.check_ordering_overlap for a field list of unknown length, arbitrary sizes (>= 1: migen's Signal rejects other widths) and arbitrary
+    declared / missing offsets (any integer)"""
+    stats = dict(accepted=0, rejected=0)
+    k, l = z3.Ints("k l")
+    def run(ctx):
+        ctx.solver.set("timeout", FEAS_MS); _robust(ctx)
+        n = z3.Int("n"); ctx.assume(n >= 0)
+        SIZE = z3.Function("field.size", I_, I_); HAS0 = z3.Function("field.offset_declared", I_, z3.BoolSort()); OFF0 = z3.Function("field.declared_offset", I_, I_)
+        ctx.assume(z3.ForAll([k], SIZE(k) >= 1))
+        st = World(); st.off = z3.Lambda([k], OFF0(k)); st.has = z3.Lambda([k], HAS0(k)); st.COMPONENTS = ("off", "has")
+        class PField:
+            def __init__(s, i): object.__setattr__(s, "i", i)
+            def __getattr__(s, a):
+                if a == "offset": return SymInt(z3.Select(st.off, s.i)) if bool(SymBool(z3.Select(st.has, s.i))) else None
+                if a == "size": return SymInt(SIZE(s.i))
+                if a == "name": return f"<field {s.i}>"
+                raise AttributeError(a)
+            def __setattr__(s, a, v):
+                if a != "offset" or toint(v) is None: raise PUnsupported(f"assignment to .{a}")
+                st.off = z3.Store(st.off, s.i, toint(v)); st.has = z3.Store(st.has, s.i, z3.BoolVal(True))
+        class FSeq:
+            symlen = n
+            def __getitem__(s, i): it = toint(i); ctx.assume(z3.And(it >= 0, it < n)); return PField(it)
+        O = lambda i: z3.Select(st.off, i); H = lambda i: z3.Select(st.has, i)
+        end = lambda i: O(i) + SIZE(i)
+        def placed(upto):
+            return z3.And(z3.ForAll([k], z3.Implies(z3.And(0 <= k, k < upto), z3.And(H(k), O(k) >= 0, z3.Implies(HAS0(k), O(k) == OFF0(k)), z3.Implies(z3.Not(HAS0(k)), O(k) == z3.If(k == 0, 0, end(k - 1)))))),
+                          z3.ForAll([k, l], z3.Implies(z3.And(0 <= k, k < l, l < upto), end(k) <= O(l))),
+                          z3.ForAll([k], z3.Implies(k >= upto, z3.And(H(k) == HAS0(k), O(k) == OFF0(k)))))
+        def inv(L):
+            i = toint(L["i0"]); off = toint(L["offset"])
+            return z3.And(placed(i), off == z3.If(i == 0, 0, end(i - 1)), off >= 0, z3.ForAll([k], z3.Implies(z3.And(0 <= k, k < i), end(k) <= off)))
+        loops = {0: dict(pos="i0", inv=inv, state=lambda L: [(st, ("off", "has"))], havoc={"offset": "int"})}
+        vc = HVC(loops, "check_ordering_overlap")
+        f2, src = _rewrite(CSRFieldAggregate.check_ordering_overlap, loops, vc)
+        assert src.count("__vc.for_begin") == 1 and 'offset = __st0["hv"]["offset"]' in src.replace("'", '"'), "loop structure changed"
+        try:
+            f2(FSeq())
+        except ValueError:
+            stats["rejected"] += 1
+            tb = sys_exc_frame("check_ordering_overlap"); i = tb["field"].i; off = toint(tb["offset"])
+            # no false rejection: the rejected field declares an offset below the end of the field before it (overlap / out of order) or a negative offset
+            ctx.check("ValueError=>declared-offset-overlaps-the-previous-field-or-is-negative", z3.And(0 <= i, i < n, HAS0(i), z3.If(i == 0, OFF0(i) < 0, OFF0(i) < end(i - 1)), placed(i)))
+            return
+        stats["accepted"] += 1
+        ctx.check("accepted=>every-field-has-an-offset>=0", z3.ForAll([k], z3.Implies(z3.And(0 <= k, k < n), z3.And(H(k), O(k) >= 0))))
+        ctx.check("accepted=>fields-pairwise-disjoint-and-ascending", z3.ForAll([k, l], z3.Implies(z3.And(0 <= k, k < l, l < n), end(k) <= O(l))))
+        ctx.check("accepted=>declared-offsets-kept", z3.ForAll([k], z3.Implies(z3.And(0 <= k, k < n, HAS0(k)), O(k) == OFF0(k))))
+        ctx.check("accepted=>automatic-offset-right-after-the-previous-field", z3.ForAll([k], z3.Implies(z3.And(0 <= k, k < n, z3.Not(HAS0(k))), O(k) == z3.If(k == 0, 0, end(k - 1)))))
+        ctx.check("accepted=>get_size(end-of-last-field)-covers-every-field", z3.Implies(n > 0, z3.ForAll([k], z3.Implies(z3.And(0 <= k, k < n), end(k) <= end(n - 1)))))
+        if wrong == "gapless": ctx.check("wrong.fields-adjacent", z3.ForAll([k], z3.Implies(z3.And(0 < k, k < n), O(k) == end(k - 1))))
+    paths, obl = explore(run, max_paths=200)
+    return paths, obl, stats
+def sys_exc_frame(fname):
+    import sys
+    tb = sys.exc_info()[2]; fl = None
+    while tb is not None:
+        if tb.tb_frame.f_code.co_name == fname: fl = tb.tb_frame.f_locals
+        tb = tb.tb_next
+    return fl
+def c_field_overlap():
+    t0 = time.time()
+    paths, obl, stats = _run_overlap()
+    out, by = _collect("check_ordering_overlap", paths, obl, t0)
+    _, o2, _ = _run_overlap(wrong="gapless")
+    refuted = any(n_.startswith("wrong.") and s_ == "FAILED" for n_, s_, _ in o2)
+    # migen rejects non-positive widths (precondition SIZE >= 1 of the proof)
+    rej = 0
+    for sz in (0, -1, -7):
+        try: CSRField("f", size=sz)
+        except (TypeError, ValueError, AssertionError): rej += 1
+    out.append(res("CSRField.size<=0-rejected-at-construction(migen Signal)", "struct", PROVED if rej == 3 else VIOLATED, 0, "plain CPython"))
+    ok = stats["accepted"] > 0 and stats["rejected"] > 0 and {"check_ordering_overlap.loop0.init", "check_ordering_overlap.loop0.step"} <= set(by) and refuted
+    out.append(res("check_ordering_overlap.cover.accepts-and-rejects;wrong-postcondition-refuted", "cover", OK if ok else VACUOUS, time.time() - t0, "pysym", paths=paths, refuted=refuted, **stats))
+    return dict(results=out, functions=["litex.soc.interconnect.csr.CSRFieldAggregate.check_ordering_overlap", "litex.soc.interconnect.csr.CSRFieldAggregate.get_size"],
+                samples=[dict(function="check_ordering_overlap", paths=paths, state="field list of unknown length; sizes >= 1, declared offsets arbitrary integers or missing")])
+
+# ---- get_reset: bit b of the register's reset value is bit (b - offset) of the reset value of the field that owns b; 0 outside every field -------------------
+def _run_get_reset(wrong=None):
+    stats = dict(returned=0)
+    k, l, bb, x, y = z3.Ints("k l b x y")
+    def run(ctx):
+        ctx.solver.set("timeout", FEAS_MS); _robust(ctx)
+        n = z3.Int("n"); ctx.assume(n >= 0)
+        SIZE = z3.Function("field.size", I_, I_); OFS = z3.Function("field.offset", I_, I_); RV = z3.Function("field.reset_value", I_, I_); FOF = z3.Function("field_of_bit", I_, I_)
+        BIT = z3.Function("bit", I_, I_, z3.BoolSort()); OR_ = z3.Function("int.or", I_, I_, I_); SHL = z3.Function("int.lshift", I_, I_, I_)
+        # Python int semantics of | and << (bit level), assumed
+        ctx.assume(z3.ForAll([x, y, bb], z3.Implies(bb >= 0, BIT(OR_(x, y), bb) == z3.Or(BIT(x, bb), BIT(y, bb)))))
+        ctx.assume(z3.ForAll([x, y, bb], z3.Implies(z3.And(bb >= 0, y >= 0), BIT(SHL(x, y), bb) == z3.And(bb >= y, BIT(x, bb - y)))))
+        ctx.assume(z3.ForAll([bb], z3.Not(BIT(z3.IntVal(0), bb))))
+        # what check_ordering_overlap established (proved above) and what Signal() enforces
+        ctx.assume(z3.ForAll([k], SIZE(k) >= 1)); ctx.assume(z3.ForAll([k], z3.Implies(z3.And(0 <= k, k < n), OFS(k) >= 0)))
+        ctx.assume(z3.ForAll([k, l], z3.Implies(z3.And(0 <= k, k < l, l < n), OFS(k) + SIZE(k) <= OFS(l))))
+        # scenario restriction (see the finding): every field's reset value fits the field
+        ctx.assume(z3.ForAll([k, bb], z3.Implies(z3.And(0 <= k, k < n, bb >= SIZE(k)), z3.Not(BIT(RV(k), bb)))))
+        # ghost: the field that owns bit b (well defined because the fields are pairwise disjoint)
+        ctx.assume(z3.ForAll([k, bb], z3.Implies(z3.And(0 <= k, k < n, OFS(k) <= bb, bb < OFS(k) + SIZE(k)), FOF(bb) == k)))
+        ctx.assume(z3.ForAll([bb], z3.Or(FOF(bb) == -1, z3.And(0 <= FOF(bb), FOF(bb) < n, OFS(FOF(bb)) <= bb, bb < OFS(FOF(bb)) + SIZE(FOF(bb))))))
+        class BInt(SymInt):
+            def __lshift__(s, o): return BInt(SHL(s.t, toint(o)))
+            def __or__(s, o): return BInt(OR_(s.t, toint(o)))
+            def __ror__(s, o): return BInt(OR_(toint(o), s.t))
+        class PField:
+            def __init__(s, i): s.i = i
+            reset_value = property(lambda s: BInt(RV(s.i))); offset = property(lambda s: SymInt(OFS(s.i))); size = property(lambda s: SymInt(SIZE(s.i)))
+        class FSeq:
+            symlen = n
+            def __getitem__(s, i): it = toint(i); ctx.assume(z3.And(it >= 0, it < n)); return PField(it)
+        def inv(L):
+            i = toint(L["i0"]); r = toint(L["reset"])
+            return z3.ForAll([bb], z3.Implies(bb >= 0, BIT(r, bb) == z3.And(0 <= FOF(bb), FOF(bb) < i, BIT(RV(FOF(bb)), bb - OFS(FOF(bb))))))
+        loops = {0: dict(pos="i0", inv=inv, state=lambda L: [], havoc={"reset": lambda c: BInt(c.fresh("reset"))})}
+        vc = HVC(loops, "get_reset")
+        f2, src = _rewrite(CSRFieldAggregate.get_reset, loops, vc)
+        assert src.count("__vc.for_begin") == 1, "loop structure changed"
+        agg = World(); agg.fields = FSeq()
+        r = toint(f2(agg)); stats["returned"] += 1
+        ctx.check("post.every-field-slice-of-the-register-reset==the-field's-reset-value", z3.ForAll([k, bb], z3.Implies(z3.And(0 <= k, k < n, 0 <= bb, bb < SIZE(k)), BIT(r, OFS(k) + bb) == BIT(RV(k), bb))))
+        ctx.check("post.bits-outside-every-field-reset-to-0", z3.ForAll([bb], z3.Implies(z3.And(bb >= 0, FOF(bb) == -1), z3.Not(BIT(r, bb)))))
+        if wrong == "zero": ctx.check("wrong.reset-is-zero", z3.ForAll([bb], z3.Implies(bb >= 0, z3.Not(BIT(r, bb)))))
+    paths, obl = explore(run, max_paths=100)
+    return paths, obl, stats
+def c_field_reset():
+    t0 = time.time()
+    paths, obl, stats = _run_get_reset()
+    out, by = _collect("get_reset", paths, obl, t0)
+    # finding (native witness): a reset value wider than its field is neither rejected nor masked: it lands in the neighbour's bits
+    try:
+        st = CSRStorage(name="x", fields=[CSRField("a", size=1, reset=5), CSRField("b", size=3, reset=0)]); rv = st.storage.reset.value
+        rp = dict(fields="a: size 1 reset 5; b: size 3 reset 0", register_reset=rv, field_b_reset_bits=(rv >> 1) & 7, reproduced=((rv >> 1) & 7) != 0)
+    except (ValueError, AssertionError, TypeError) as e:
+        rp = dict(rejected=f"{type(e).__name__}: {e}", reproduced=False)
+    out.append(res("finding.field-reset-value-fits-its-field-or-is-rejected(reset_value >= 2**size)", "finding-witness", VIOLATED if rp["reproduced"] else PROVED, 0, "plain CPython",
+                   what="CSRField reset value wider than the field is accepted; get_reset ORs it into the neighbouring field's bits", replay_info=rp))
+    ok = stats["returned"] > 0 and {"get_reset.loop0.init", "get_reset.loop0.step"} <= set(by)
+    # consistency of the assumption set: the concrete aggregate [size 2 @0 reset 3, size 3 @4 reset 5] with the real bit function of Python ints is a model (checked on a finite window natively)
+    agg = CSRFieldAggregate([CSRField("p", size=2, reset=3), CSRField("q", size=3, offset=4, reset=5)], CSRAccess.ReadWrite)
+    ok = ok and agg.get_reset() == (3 | (5 << 4)) and agg.get_size() == 7
+    out.append(res("get_reset.cover.returns;loop-obligations-generated;concrete-aggregate-agrees", "cover", OK if ok else VACUOUS, time.time() - t0, "pysym", paths=paths, **stats))
+    return dict(results=out, functions=["litex.soc.interconnect.csr.CSRFieldAggregate.get_reset"],
+                assumptions=["get_reset proof: Python ints at bit level: bit(x|y,b) = bit(x,b) or bit(y,b); bit(x<<k,b) = (b>=k and bit(x,b-k)) for k >= 0; bit(0,b) = false; "
+                             "preconditions taken from the proved post-state of check_ordering_overlap (offsets >= 0, fields pairwise disjoint, ascending) and from migen's Signal (size >= 1); "
+                             "scenario restriction: every field's reset value fits the field (0 <= reset < 2**size, stated as: no bit at or above `size`) - outside it see finding.field-reset-value-fits-its-field-or-is-rejected"],
+                samples=[dict(function="get_reset", paths=paths, state="field list of unknown length; offsets, sizes, reset values symbolic; bit-level model of | and <<")])
+
+# ---- E1: registers built from field lists (pulse fields in any word, multi-bit pulse, both orderings, atomic write) -------------------------------------------
+def spec_fields(fields):
+    """SPEC: a field with a declared offset sits there; otherwise right after the previous field; -> {name: (offset, size, reset, pulse)}"""
+    out = {}; run = 0
+    for (nm, size, offset, reset, pulse) in fields:
+        o = run if offset is None else offset
+        assert o >= run; out[nm] = (o, size, reset, pulse); run = o + size
+    return out, run
+def c_field_regs(sfields, tfields, busw, ordering, atomic):
+    class Top(Module, AutoCSR):
+        def __init__(self):
+            self.ctrl = CSRStorage(name="ctrl", atomic_write=atomic, fields=[CSRField(nm, size=sz, offset=of, reset=rs, pulse=pl, values=[("0", "off"), ("1", "on")] if nm == "en" else None) for nm, sz, of, rs, pl in sfields])
+            self.stat = CSRStatus(name="stat", fields=[CSRField(nm, size=sz, offset=of) for nm, sz, of, rs, pl in tfields])
+            self.bus = csr_bus.Interface(data_width=busw, address_width=14)
+            self.submodules.bank = csr_bus.CSRBank([self.ctrl, self.stat], address=2, bus=self.bus, ordering=ordering)
+    d = mk(Top); bus = d.bus
+    ss, ssize = spec_fields(sfields); ts_, tsize = spec_fields(tfields)
+    h = HwCheck(f"fields({len(sfields)}+{len(tfields)},bus={busw},{ordering},atomic={atomic})", d, [bus.adr, bus.we, bus.re, bus.dat_w] + [getattr(d.stat.fields, nm) for nm in ts_])
+    V = h.v; pre = []
+    def struct(name, ok, **info): pre.append(res(name, "struct", PROVED if ok else VIOLATED, 0, "elaboration", **info))
+    struct("struct.register-size==end-of-last-field", d.ctrl.size == ssize and d.stat.size == tsize and len(d.ctrl.storage) == ssize and len(d.stat.status) == tsize, got=(d.ctrl.size, d.stat.size), want=(ssize, tsize))
+    struct("struct.field-offsets-as-declared-or-right-after-the-previous-field", all(getattr(d.ctrl.fields, nm).offset == ss[nm][0] for nm in ss) and all(getattr(d.stat.fields, nm).offset == ts_[nm][0] for nm in ts_))
+    rv = d.ctrl.storage.reset.value
+    struct("struct.reset-composition:every-field-slice-of-the-reset==declared-reset,gaps-0", all(((rv >> o) & ((1 << sz) - 1)) == rs for (o, sz, rs, pl) in ss.values()) and rv == sum(rs << o for (o, sz, rs, pl) in ss.values()), reset=hex(rv))
+    struct("struct.values-documentation-kept", d.ctrl.fields.en.values == [("0", "off"), ("1", "on")] if "en" in ss else True)
+    h.pre_results = pre
+    pb = 9; adr = V(bus.adr); idx = z3.Extract(pb - 1, 0, adr); sel = z3.Extract(13, pb, adr) == K(2, 14 - pb)
+    we = b(V(bus.we)); nw = (ssize + busw - 1) // busw
+    hit_last = z3.And(sel, we, idx == K(nw - 1, pb))          # the register's last address (ctrl is the first register of the bank)
+    st = V(d.ctrl.storage); nst = h.n(d.ctrl.storage); re = b(V(d.ctrl.re))
+    h.ensure("ens.re:one-cycle-after-a-write-to-the-last-address-only", b(h.n(d.ctrl.re)) == hit_last)
+    for nm, (o, sz, rs, pl) in ss.items():
+        F = getattr(d.ctrl.fields, nm); sl = z3.Extract(o + sz - 1, o, st)
+        if not pl:
+            h.ensure(f"ens.field[{nm}]@{o}", V(F) == sl)
+        elif rs != 0:
+            # a pulse field declared with a non-zero reset value: expressed as a finding (the comb default of the field signal is its reset value)
+            h.finding(f"finding.pulse({nm}).idles-at-0-and-lasts-one-cycle(pulse field with non-zero reset value)", V(F) == z3.If(re, sl, K(0, sz)),
+                      "CSRField(pulse=True, reset!=0): the field signal idles at its reset value (high all the time, low for one cycle when 0 is written) instead of pulsing for one cycle")
+            h.cover(f"cover.pulse[{nm}].written", z3.And(re, sl != K(0, sz)), depth=nw + 3)
+        else:
+            h.ensure(f"ens.pulse[{nm}]@{o}:field-bits-while-the-write-strobe-is-high,else-0", V(F) == z3.If(re, sl, K(0, sz)))
+            h.ensure(f"ens.pulse[{nm}].exactly-the-cycle-after-a-write-access", h.n(F) == z3.If(hit_last, z3.Extract(o + sz - 1, o, nst), K(0, sz)))
+            h.ensure_seq(f"ens.pulse[{nm}].lasts-one-cycle-per-write", lambda at, F=F, sz=sz: z3.Implies(z3.Not(at(hit_last, 1)), at(V(F), 2) == K(0, sz)), steps=3)
+            h.cover(f"cover.pulse[{nm}]", V(F) != K(0, sz), depth=nw + 3)
+    parts = []; top = tsize
+    for nm, (o, sz, rs, pl) in sorted(ts_.items(), key=lambda kv: -kv[1][0]):
+        if o + sz < top: parts.append(K(0, top - (o + sz)))
+        parts.append(V(getattr(d.stat.fields, nm))); top = o
+    if top: parts.append(K(0, top))
+    h.ensure("ens.status==fields-at-their-offsets,gaps-0", V(d.stat.status) == cat(*parts))
+    h.cover("cover.write", hit_last, depth=2)
+    h.functions = ["litex.soc.interconnect.csr.CSRFieldAggregate.__init__/check_names/check_ordering_overlap/get_size/get_reset", "litex.soc.interconnect.csr.CSRField.__init__",
+                   "litex.soc.interconnect.csr.CSRStorage.__init__/do_finalize (fields)", "litex.soc.interconnect.csr.CSRStatus.__init__/do_finalize (fields)"]
+    return h
+SF1 = [("en", 1, None, 1, False), ("go", 1, None, 0, True), ("mode", 3, 4, 5, False), ("len", 6, None, 9, False), ("kick", 1, 14, 0, True), ("hi", 5, 17, 0x15, False)]
+SF2 = [("burst", 3, 2, 0, True), ("cfg", 9, None, 0x101, False), ("last", 1, 33, 0, True)]
+SF3 = [("cfg", 4, None, 3, False), ("fire", 1, None, 1, True), ("tail", 2, 9, 2, False)]
+TF1 = [("busy", 1, None, 0, False), ("code", 4, 3, 0, False), ("cnt", 10, 8, 0, False), ("top", 3, 30, 0, False)]
 
 # =====================================================================================================================================
 def cases(tier):
@@ -648,6 +1074,11 @@ def cases(tier):
           VCase("composed(A,bus=32,big,paging=0x1000,SoCCSRHandler,reserved locations)", c_composed, design_a(32), 32, "big", 0x1000, "soc", False, {"beta": 5, "gamma": 0}),
           VCase("composed(paged,bus=8,little,paging=0x20,table)", c_composed, design_paged(8), 8, "little", 0x20, {"pa": 6, "pa/win": 2, "pb": 7, "pb/rom": 3}),
           VCase("composed(paged,bus=32,big,paging=0x20,table)", c_composed, design_paged(32), 32, "big", 0x20, {"pa": 1, "pa/win": 0, "pb": 2, "pb/rom": 511})]
+    cs += [VCase("AutoCSR.get_csrs(native trees)", c_gather_native), VCase("SoCCSRHandler.address_map(proof)", c_address_map), VCase("CSRBank(bank larger than a page)", c_bank_overflow),
+           VCase("CSRFieldAggregate.check_ordering_overlap(proof)", c_field_overlap), VCase("CSRFieldAggregate.get_reset(proof)", c_field_reset)]
+    for sf, tf, busw, ordering, atomic, tag in ((SF1, TF1, 8, "big", False, "ctl"), (SF1, TF1, 8, "little", False, "ctl"), (SF1, TF1, 8, "big", True, "ctl"), (SF1, TF1, 32, "big", False, "ctl"),
+                                                (SF2, TF1, 32, "little", True, "wide-pulse"), (SF2, TF1, 8, "little", False, "wide-pulse"), (SF2, TF1, 32, "big", False, "wide-pulse"), (SF3, TF1, 8, "big", False, "pulse-with-reset")):
+        cs.append(VCase(f"field-registers({tag},bus={busw},{ordering},atomic={atomic})", c_field_regs, sf, tf, busw, ordering, atomic))
     cs += [VCase("csrprefix(proof)", c_prefix, "csrprefix"), VCase("memprefix(proof)", c_prefix, "memprefix")]
     for method, pf in (("get_csrs", "csrprefix"), ("get_memories", "memprefix"), ("get_constants", "csrprefix")):
         cs.append(VCase(f"AutoCSR.{method}(proof,first call,exclude)", c_gatherer, method, pf, False, True, True))
@@ -656,4 +1087,17 @@ def cases(tier):
            VCase("AutoCSR.get_csrs(proof,sort=True,later call,exclude)", c_gatherer, "get_csrs", "csrprefix", True, True, False)]
     return cs
 
-ASSUMPTIONS = []
+ASSUMPTIONS = [
+    "gatherer proof (E3): the object is a TREE - every register / memory / constant is reachable through exactly one attribute path (an object stored under two attribute names, or a child shared by two parents, is outside the contract: "
+    "natively such an object is returned twice); migen's DUID gives every object a different duid (objects are identified with their duid); xdir(obj, True) enumerates (name, value) of every attribute once; "
+    "attribute kinds: an instance of the gathered class | a value with a callable attribute of the method's name | anything else (ignored); a child's method obeys the contract proved here (induction over the tree): it returns the same "
+    "duplicate-free list at every call and changes names of objects of that list only; builtin sorted(list, key) returns a new ascending permutation; _sort_gathered_items replaced by the contract proved in C12_sort_proof.py; "
+    "csrprefix/memprefix replaced inside the gatherer by the contract proved in the cases csrprefix(proof)/memprefix(proof); Python list/set semantics assumed for the proxies ([] new empty list, append, +=, set(), in, add); "
+    "`exclude` membership is an arbitrary predicate on attribute names; termination not proved",
+    "gatherer proof: ghost functions defined by recursion / as inverse maps (offset(a) = number of list entries of the attributes before a; owner attribute and index of an object; first occurrence in csrprefix's list) are conservative "
+    "definitions; the assumption set is shown consistent by verifying one concrete tree against every assumed formula",
+    "composed designs (E1): CSR names given explicitly; all masters but one of InterconnectShared idle (drive zero); CSR memories as wide as the bus (other shapes in C12_csr_sram.py); designs, bus widths, orderings, pagings from a grid; "
+    "all bus / device input valuations and all register / memory states",
+    "address_map proof: SoCLocHandler.add(name, use_loc_if_exists=True) replaced by its contract (C13_alloc.py); names arbitrary z3 strings",
+    "field proofs: field sizes >= 1 (migen Signal rejects other widths; checked natively); offsets arbitrary integers or None; get_reset under the scenario restriction 'every reset value fits its field' (finding outside it)",
+]
